@@ -123,7 +123,7 @@ func driverMsgReplay(c *Ctx) {
 			case "Fill":
 				id := pool(o.ID)
 				vals := map[string]interface{}{o.Key: 5}
-				addMsg(J{"k": "fillmsg", "id": id + 1, "sigma": []interface{}{J{"k": chars(o.Key), "v": intJ(5)}}},
+				addMsg(J{"k": "fillmsg", "id": id + 1, "cnt": []interface{}{}, "sigma": []interface{}{J{"k": chars(o.Key), "v": intJ(5)}}},
 					func() *ast.DataMessage { return objs[id].msg.FillVariables(vals) }, -1)
 				vals[o.Key] = 99
 			case "Scribble":
